@@ -19,6 +19,12 @@ CHECKS = {
         note="Trusted: pyvc, z3. Assumed: create_branch by contract (parent path + pending condition); the worklist/activation discipline of SEVM.run (every pushed state is later popped, activated and run) is NOT under contract, so this is per-unit coverage, not a whole-exploration theorem; hash range/injectivity and MAX_ETH are the documented modelling assumptions; assert/assume arms are proved in the C13 pack; arith axioms in the C06 pack.",
         technique="sigma-coverage VCs generated from the real source AST (pyvc) with the solver as a contract, z3",
     ),
+    "C08": dict(
+        text="Deductive, relative to an abstract decode: the real init/load/store bodies of SolidityStorage and GenericStorage are executed from the AST on a real Exec (real Path, real Exec.select) and, for write/read scripts over symbolic keys and values, the value read is proved under the path's own conditions (array definitions, per-index emptiness axioms) to be the most recent write to an equal key of the same structure, else the initial value (zero; unconstrained in symbolic-storage mode); structures that differ in slot, number of keys or key width never influence each other; nested mappings distinguish key order; simple_hash is injective. SEVM.sload/sstore use the configured layout on the right (transient/persistent) map and record the access; run_message gives every transaction a fresh empty transient map per account and a private copy of storage; OffsetMap with symbolic 256-bit keys (hit iff same bucket, delta exact) and KeccakRegistry (hash value + offset recovered as expr + offset); all 770 precomputed keccak entries are checked against real keccak256 and against the registry (ground).",
+        ref="DESIGN.md 4/C08 and 12",
+        note="Trusted: pyvc, z3, eth_hash keccak. Assumed: the contract of decode (location term -> key structure) for the location tokens used; decode/normalize themselves inspect z3 term syntax and are a bounded stand-in (location-expression grammar in several spellings, both layouts, z3-compared); hash injectivity/range are the property's documented assumptions; finite write/read scripts (two writes and a read per structure).",
+        technique="contracts relative to an abstract decode: real AST executed by pyvc on a real Exec, array VCs under the path's own conditions (z3); ghost dictionary with symbolic keys; ground table check; bounded decode grammar as labelled stand-in",
+    ),
     "C09": dict(
         text="Deductive per frame, with ownership/frame conditions: the real bodies of SEVM.call (send_callvalue, call_known and its callback), SEVM.create (and its callback), SEVM.sstore and the LOG arms are executed from the AST on real Exec objects with symbolic words. Proved: message construction per scheme (own address, sender, value, origin, static flag inherited or set, callee code from pc 0 on an empty frame, one level deeper); the snapshot (code map, storage, transient storage, balance, taken before the value transfer) consists of objects NOT reachable from the state the sub-frame works on, so restoration is exact for every callee behaviour; a failing frame leaves storage, transient storage, balances and code exactly as before (fresh copies), flag 0; a successful frame's effects persist, flag 1; return data copy; caller stack/memory/pc/loop record restored; the continuation owns a deep copy of the caller's context (trace, prank); stuck sub-frames end the path reported; insufficient-funds successor for CALL and CALLCODE; value moves for CALL only, pointwise; SSTORE/TSTORE/LOGn/CREATE/CREATE2 fail inside static frames; CREATE/CREATE2 frames, new-account setup and undo. One genuine defect is a recorded known finding (value-bearing CALL inside a static frame is accepted).",
         ref="DESIGN.md 4/C09 and 11",
